@@ -185,7 +185,9 @@ func c08Check(w *World, s *Setup, p ParentRef, changeStep int) *Violation {
 			syncs++
 		}
 	}
-	if bound := 12 + 10*n; syncs > bound {
+	// (a child somebody deleted during the rollout - C09 - has to be made and become
+	// healthy once more: one more child's worth of syncs)
+	if bound := 12 + 10*(n+w.Probes["c09:child-of-old-revision-deleted-mid-rollout"]); syncs > bound {
 		return &Violation{Prop: "C08", Class: "too-many-syncs", Sig: s.Sig, Detail: fmt.Sprintf("%d syncs for a rollout of %d children (bound %d)", syncs, n, bound)}
 	}
 	w.Probe("c08:rollout-finished")
